@@ -45,6 +45,58 @@ SINK_CALLS = [
 ]
 
 
+LOOP_RANGE = re.compile(r"^<std::ops::Range(Inclusive)?<[iu](8|16|32|64|128|size)> as std::iter::IntoIterator>::into_iter$")
+
+
+def _loop_has_break(b, into_iter_bb, t):
+    """the counted loop can also end early on its own (`break` when the data runs out): an edge out
+    of the loop body that joins the continuation the exhausted iterator goes to"""
+    it = t["d"]["l"]
+    holders = {it}
+    for bb in b.bbs:
+        for st in bb["s"]:
+            if st["k"] == "=" and st["r"]["k"] in ("use", "ref") and not st["l"]["p"]:
+                pl = op_place(st["r"]["o"]) if st["r"]["k"] == "use" and not op_is_const(st["r"]["o"]) else (st["r"]["p"] if st["r"]["k"] == "ref" else None)
+                if pl and pl["l"] in holders:
+                    holders.add(st["l"]["l"])
+    nxt = [x for x, tt in b.calls() if re.search(r"Iterator>::next$", tt["f"] or "") and tt["a"] and op_local(tt["a"][0]) in holders]
+    if not nxt:
+        return False
+    lps = [(h, body) for h, body in cfg.loops(b).items() if nxt[0] in body]
+    if not lps:
+        return False
+    head, body = min(lps, key=lambda hb: len(hb[1]))
+    # where the exhausted iterator leaves: successors outside the body of the switch after next()
+    sw = b.term(nxt[0])["t"]
+    exits = []
+    for x in body:
+        for y in b.succs(x):
+            if y not in body:
+                exits.append((x, y))
+    normal = {y for x, y in exits if x == sw}
+    if not normal:
+        return False
+    def settles(y):
+        for _ in range(4):
+            if y in normal:
+                return True
+            tt = b.term(y)
+            if tt["k"] != "goto":
+                return False
+            y = tt["t"]
+        return y in normal
+    cont = set()
+    for y in normal:
+        z = y
+        for _ in range(4):
+            cont.add(z)
+            tt = b.term(z)
+            if tt["k"] != "goto":
+                break
+            z = tt["t"]
+    return any(x != sw and (y in cont or settles(y) or (b.term(y)["k"] == "goto" and b.term(y)["t"] in cont)) for x, y in exits)
+
+
 def _sign_losing(r):
     return bool(re.match(r"^i(8|16|32|64|128|size)$", r.get("from", "")) and re.match(r"^u(8|16|32|64|128|size)$", r["ty"]))
 
@@ -813,6 +865,13 @@ def sinks(T, fn, kinds=("panic", "alloc")):
             yield {"bb": i, "kind": "arith" if m != "BoundsCheck" else "index", "what": m, "origin": T.op_t(tl, which[0]), "guarded": guarded, "line": t.get("line")}
         elif t["k"] == "call":
             f = t["f"] or ""
+            if LOOP_RANGE.search(f) and t["a"] and not op_is_const(t["a"][0]):
+                # `for _ in 0..n`: the command thread runs n iterations
+                ends = range_ends(b, t["a"][0])
+                if ends and not op_is_const(ends[1]) and T.op_t(tl, ends[1]):
+                    guarded = sink_guarded(T, b, i, ends[1], "loop") or _loop_has_break(b, i, t)
+                    yield {"bb": i, "kind": "loop", "what": "Range::into_iter", "origin": T.op_t(tl, ends[1]), "guarded": guarded, "line": t.get("line")}
+                continue
             for rx, idxs, kind in SINK_CALLS:
                 if not rx.search(f):
                     continue
@@ -995,7 +1054,7 @@ def range_ends(b, o, depth=4):
     for kind, bbi, x in prov.build_defs(b).get(l, ()):
         if kind == "call" and re.search(r"^std::ops::RangeInclusive::<.*>::new$", x["f"] or "") and len(x["a"]) == 2:
             return (x["a"][0], x["a"][1])
-        if kind == "stmt" and x["r"]["k"] == "agg" and re.match(r"^std::ops::Range(Inclusive)?(::<.*>)?$|^std::ops::Range$", x["r"]["a"]) and len(x["r"]["o"]) == 2:
+        if kind == "stmt" and x["r"]["k"] == "agg" and re.match(r"^std::ops::Range(Inclusive)?(::<.*>)?$|^std::ops::Range$|^std::ops::Range::Range$", x["r"]["a"]) and len(x["r"]["o"]) == 2:
             return (x["r"]["o"][0], x["r"]["o"][1])
         if kind == "stmt" and x["r"]["k"] == "use" and not op_is_const(x["r"]["o"]):
             r = range_ends(b, x["r"]["o"], depth - 1)
@@ -1022,6 +1081,14 @@ def range_order_known(T, b, bb, start, end):
                 if (A & Rs and C & Re) or (A & Re and C & Rs):
                     if any(bb in cfg.edge_dom_set(b, d, tgt) for tgt in set(b.succs(d))):
                         return True
+    # (b) end is an unsigned sum one of whose addends is start (`offset.checked_add(len)` matched
+    # through `Some(n) if n <= LIMIT => n`): start <= end by construction
+    Pe = prov.operand_origins(b, end, stop_calls=re.compile(r"::(checked_add|saturating_add)$"))
+    for r in Pe.roots:
+        if r[0] == "call" and re.search(r"impl u(8|16|32|64|128|size)>::(checked_add|saturating_add)$", r[1]):
+            tt = b.term(r[2])
+            if any((not op_is_const(a)) and ((T.copy_roots(b, a) | T.cast_siblings(b, a)) & Rs) for a in tt["a"]):
+                return True
     # (b) end derived from start
     P = prov.operand_origins(b, end, deep=True)
     sl = op_place(start)["l"]
